@@ -527,3 +527,36 @@ Definition is_digits (d : str) : bool := negb (is_nil d) && forallb is_digit d.
 (* classes of stringification sites (Gen/C06Sites.stringify_sites) *)
 Inductive sclass := KStripped | KException | KReviewed | KObject.
 Definition sclass_ok (k : sclass) : bool := match k with KObject => false | _ => true end.
+
+(* ======================================================================= Part G: order of archive results *)
+(* archive_extractor._extract_from_zip_optimized / _extract_from_tar_optimized: first pass collects the members to
+   process (directories and _should_skip_file members dropped), second pass reads each (too large / unreadable
+   members dropped) and yields what the member's extractor yields (_process_archive_entry: results yielded before an
+   exception are kept, the exception is swallowed).  R = identity of a result. *)
+Record amember (R : Type) := mkAM {
+  am_dir : bool;             (* info.is_dir() / not member.isreg() *)
+  am_skip : bool;            (* _should_skip_file(filename, basename): hidden, unsupported, nested archive (oracle: C09) *)
+  am_too_large : bool;       (* size > max_memory_size or > MAX_ARCHIVE_FILE_SIZE *)
+  am_unreadable : bool;      (* zf.read / tf.extractfile failed *)
+  am_results : list R        (* what the member's own extractor yields before it returns or raises (oracle) *)
+}.
+Arguments mkAM {R}. Arguments am_dir {R}. Arguments am_skip {R}. Arguments am_too_large {R}.
+Arguments am_unreadable {R}. Arguments am_results {R}.
+
+Definition to_process {R} (ms : list (amember R)) : list (amember R) :=
+  filter (fun m => negb (am_dir m) && negb (am_skip m)) ms.
+
+Definition entry_results {R} (m : amember R) : list R :=
+  if am_too_large m || am_unreadable m then [] else am_results m.
+
+Definition archive_results {R} (ms : list (amember R)) : list R := flat_map entry_results (to_process ms).
+
+(* a worker pool: task i finishes at some point decided by the scheduler; `completion` = the order in which the
+   tasks finish (a permutation of the task list, oracle) *)
+Definition pool_as_completed {R} (completion : list (amember R) -> list (amember R)) (ms : list (amember R)) : list R :=
+  flat_map entry_results (completion (to_process ms)).
+
+(* results consumed in submission order (executor.map / futures waited for in list order): the scheduler only decides
+   WHEN a result is available, the consumer takes them by position *)
+Definition pool_in_submission_order {R} (completion : list (amember R) -> list (amember R)) (ms : list (amember R)) : list R :=
+  flat_map entry_results (to_process ms).
